@@ -16,21 +16,31 @@ run_case() { # name patch prop
   name=$1; patch=$2; prop=$3
   d=$(mktemp -d "$work/m.XXXXXX"); cp -r /repo "$d/repo"; rm -rf "$d/repo/.git"
   (cd "$d/repo" && patch -p1 -s < "$patch") || { echo "CASE $name: patch does not apply"; miss=$((miss+1)); rm -rf "$d"; return; }
-  bin/vcheck run "$prop" --tier quick --repo "$d/repo" > "$d/log" 2>&1; rc=$?
+  # first without the free-running race pass (faster); a case that is not reported that way is run again with it
+  VERIF_RACEPASS=0 bin/vcheck run "$prop" --tier quick --repo "$d/repo" > "$d/log" 2>&1; rc=$?
+  if [ $rc -ne 1 ]; then bin/vcheck run "$prop" --tier quick --repo "$d/repo" > "$d/log" 2>&1; rc=$?; fi
   total=$((total+1))
   if [ $rc -eq 1 ]; then echo "CASE $name ($prop): detected ($(grep -c '^VIOLATION' $d/log) violation lines)"; else echo "CASE $name ($prop): NOT DETECTED rc=$rc"; miss=$((miss+1)); tail -3 "$d/log"; fi
   rm -rf "$d"
 }
+# optional sharding: SHARD=i/n runs every n-th case starting at i (cases are numbered in listing order)
+shard_i=0; shard_n=1
+if [ -n "${SHARD:-}" ]; then shard_i=${SHARD%/*}; shard_n=${SHARD#*/}; fi
+idx=0
+pick() { idx=$((idx+1)); [ $((idx % shard_n)) -eq $shard_i ]; }
 for m in mutants/*.diff; do
+  pick || continue
   prop=$(basename "$m" | cut -c1-3 | tr c C)
   run_case "$(basename $m .diff)" "$PWD/$m" "$prop"
 done
 for s in seeded/*/; do
+  pick || continue
   n=$(basename "$s"); prop=$(echo "$n" | cut -c1-3)
+  [ -f "$s/PROPERTY" ] && prop=$(cat "$s/PROPERTY") # a change filed under one property but reported by the check of another
   run_case "seed:$n" "$PWD/$s/patch.diff" "$prop"
 done
 bad=0
-for p in C01 C02 C03 C04 C05 C06 C07 C08 C09 C10 C11 C12 C13 C14 C15 C16 C17 C18 C19 C20; do
+[ -n "${SKIPBASE:-}" ] || for p in C01 C02 C03 C04 C05 C06 C07 C08 C09 C10 C11 C12 C13 C14 C15 C16 C17 C18 C19 C20; do
   bin/vcheck run $p --tier quick > "$work/base.log" 2>&1; rc=$?
   if [ $rc -ne 0 ]; then echo "BASE $p: rc=$rc"; tail -3 "$work/base.log"; bad=$((bad+1)); fi
 done
